@@ -196,6 +196,30 @@ func runCase(c Case) (res vt.Result, fail *vt.Fail) {
 	if f := checkPreds(ctx, store, d, m.Stored, "after push phase"); f != nil {
 		return res, f
 	}
+	if c.Store == "file" {
+		// the same question asked with the title-annotated descriptor of a named
+		// node (present or not) must get the same answer
+		parents := d.Parents()
+		for _, id := range d.CanonIDs() {
+			n := d.Nodes[id]
+			if n.Spec.Title == "" {
+				continue
+			}
+			got, err := store.Predecessors(ctx, n.PushDesc())
+			if err != nil {
+				return res, vt.Failf("C07/predecessors-error", "Predecessors(node %d with title): %v", id, err)
+			}
+			want := 0
+			for _, p := range parents[id] {
+				if m.Stored[p] {
+					want++
+				}
+			}
+			if len(got) != want {
+				return res, vt.Failf("C07/predecessors-mismatch-titled-query", "file store: Predecessors(node %d queried with its title %q, stored=%v) returned %d parents, the edge list has %d stored ones", id, n.Spec.Title, m.Stored[id], len(got), want)
+			}
+		}
+	}
 
 	// classification
 	parents := d.Parents()
